@@ -247,7 +247,7 @@ func (x *extractor) lit(t Term, ty types.Type, depth int) string {
 				return `""`
 			}
 			if n.Cmp(big.NewInt(replayMaxElems)) > 0 {
-				x.tooLong = append(x.tooLong, fmt.Sprintf("(bvsle (strlen %s) (_ bv%d 64))", t.S, replayMaxElems))
+				x.tooLong = append(x.tooLong, fmt.Sprintf("(and (bvsle (_ bv0 64) (strlen %s)) (bvsle (strlen %s) (_ bv%d 64)))", t.S, t.S, replayMaxElems))
 				return x.fail("string too long in model (%s)", n)
 			}
 			x.pins = append(x.pins, mkEq(mk(bvSort(64), "strlen", t), bvConst(n, 64)).S)
@@ -360,6 +360,7 @@ func (x *extractor) structLit(ref Term, sty types.Type, depth int) string {
 // ---------------------------------------------------------------------
 
 type replayResult struct {
+	Globals  map[string]string `json:"globals"`
 	Panicked bool              `json:"panicked"`
 	Panic    string            `json:"panic"`
 	Results  []string          `json:"results"`
@@ -398,7 +399,8 @@ func tryReplay(eng *Engine, o *Obligation, info map[string]any, repo string) boo
 		case SIface:
 			softs = append(softs, fmt.Sprintf("(= (if-tag %s) 0)", in.T.S))
 		case SStr:
-			softs = append(softs, fmt.Sprintf("(bvsle (strlen %s) (_ bv%d 64))", in.T.S, replayMaxElems))
+			softs = append(softs, fmt.Sprintf("(and (bvsle (_ bv0 64) (strlen %s)) (bvsle (strlen %s) (_ bv0 64)))", in.T.S, in.T.S),
+				fmt.Sprintf("(and (bvsle (_ bv0 64) (strlen %s)) (bvsle (strlen %s) (_ bv%d 64)))", in.T.S, in.T.S, replayMaxElems))
 		}
 	}
 	var x *extractor
@@ -485,7 +487,15 @@ func tryReplay(eng *Engine, o *Obligation, info map[string]any, repo string) boo
 		info["replay"] = "model not replayable: " + strings.Join(x.errs, "; ")
 		return false
 	}
-	rr, out, err := runHarness(eng, u.fn, pkg, argLits, x.imports, repo)
+	var globals []string
+	for region, sortName := range u.rsorts {
+		if strings.HasPrefix(region, "G_"+sanitize(pkgPath)+".") {
+			if _, isbv := isBV(sortName); isbv || sortName == SBool {
+				globals = append(globals, strings.TrimPrefix(region, "G_"+sanitize(pkgPath)+"."))
+			}
+		}
+	}
+	rr, out, err := runHarness(eng, u.fn, pkg, argLits, x.imports, repo, globals)
 	info["replay_output"] = truncate(out, 3000)
 	if err != nil {
 		info["replay"] = "harness failed: " + err.Error()
@@ -517,6 +527,35 @@ func tryReplay(eng *Engine, o *Obligation, info map[string]any, repo string) boo
 	for i := 0; i < resT.Len() && i < len(rr.Results) && i < len(o.retResults); i++ {
 		for _, a := range pinResult(u, o, o.retResults[i], resT.At(i).Type(), rr.Results[i]) {
 			pin.WriteString("(assert " + a + ")\n")
+		}
+	}
+	// package-level variables of basic type: pin their observed values before and after the call
+	for region, sortName := range u.rsorts {
+		if !strings.HasPrefix(region, "G_"+sanitize(pkgPath)+".") {
+			continue
+		}
+		gname := strings.TrimPrefix(region, "G_"+sanitize(pkgPath)+".")
+		w, isbv := isBV(sortName)
+		for _, when := range []string{"pre", "post"} {
+			v, ok := rr.Globals[when+":"+gname]
+			if !ok {
+				continue
+			}
+			var t Term
+			if when == "pre" {
+				t = u.heapGet(Heap{}, region)
+			} else if o.retHeap != nil {
+				t = u.heapGet(o.retHeap, region)
+			} else {
+				continue
+			}
+			if isbv {
+				if n, ok := new(big.Int).SetString(v, 10); ok {
+					pin.WriteString("(assert " + mkEq(t, bvConst(n, w)).S + ")\n")
+				}
+			} else if sortName == SBool {
+				pin.WriteString("(assert " + mkEq(t, Term{v, SBool}).S + ")\n")
+			}
 		}
 	}
 	// observed post-state of objects passed by pointer
@@ -616,7 +655,7 @@ func pinResult(u *Unit, o *Obligation, rt Term, ty types.Type, observed string) 
 }
 
 // runHarness writes an in-package test through -overlay and runs it.
-func runHarness(eng *Engine, fn *ssa.Function, pkg *types.Package, argLits []string, imports map[string]bool, repo string) (*replayResult, string, error) {
+func runHarness(eng *Engine, fn *ssa.Function, pkg *types.Package, argLits []string, imports map[string]bool, repo string, globals []string) (*replayResult, string, error) {
 	tmp, err := os.MkdirTemp("", "govc-replay-")
 	if err != nil {
 		return nil, "", err
@@ -640,7 +679,10 @@ func runHarness(eng *Engine, fn *ssa.Function, pkg *types.Package, argLits []str
 	sb.WriteString(")\n\n")
 	sb.WriteString("func govcShow(v interface{}) string {\n\tswitch x := v.(type) {\n\tcase nil:\n\t\treturn \"nil\"\n\tcase error:\n\t\tif x == nil { return \"nil\" }\n\t\treturn \"non-nil\"\n\tcase []byte:\n\t\tif x == nil { return \"nil\" }\n\t\tn := make([]int, len(x)); for i, b := range x { n[i] = int(b) }\n\t\tj, _ := json.Marshal(n); return string(j)\n\tcase bool, int, int8, int16, int32, int64, uint, uint8, uint16, uint32, uint64:\n\t\treturn fmt.Sprint(x)\n\t}\n\treturn fmt.Sprintf(\"%v\", v)\n}\n\n")
 	sb.WriteString("func TestGovcReplay(t *testing.T) {\n")
-	sb.WriteString("\tres := struct{ Panicked bool `json:\"panicked\"`; Panic string `json:\"panic\"`; Results []string `json:\"results\"`; Post map[string]string `json:\"post\"` }{Post: map[string]string{}}\n")
+	sb.WriteString("\tres := struct{ Panicked bool `json:\"panicked\"`; Panic string `json:\"panic\"`; Results []string `json:\"results\"`; Post map[string]string `json:\"post\"`; Globals map[string]string `json:\"globals\"` }{Post: map[string]string{}, Globals: map[string]string{}}\n")
+	for _, g := range globals {
+		sb.WriteString(fmt.Sprintf("\tres.Globals[%q] = fmt.Sprint(%s)\n", "pre:"+g, g))
+	}
 	sb.WriteString("\tfunc() {\n\t\tdefer func() { if r := recover(); r != nil { res.Panicked = true; res.Panic = fmt.Sprint(r) } }()\n")
 	sig := fn.Signature
 	var call string
@@ -703,7 +745,11 @@ func runHarness(eng *Engine, fn *ssa.Function, pkg *types.Package, argLits []str
 	for _, p := range post {
 		sb.WriteString(p)
 	}
-	sb.WriteString("\t}()\n\tj, _ := json.Marshal(res)\n\tos.WriteFile(os.Getenv(\"GOVC_REPLAY_OUT\"), j, 0o644)\n}\n")
+	sb.WriteString("\t}()\n")
+	for _, g := range globals {
+		sb.WriteString(fmt.Sprintf("\tres.Globals[%q] = fmt.Sprint(%s)\n", "post:"+g, g))
+	}
+	sb.WriteString("\tj, _ := json.Marshal(res)\n\tos.WriteFile(os.Getenv(\"GOVC_REPLAY_OUT\"), j, 0o644)\n}\n")
 	src := filepath.Join(tmp, "zz_govc_replay_test.go")
 	os.WriteFile(src, []byte(sb.String()), 0o644)
 	var pkgDir string
